@@ -51,7 +51,7 @@ FLOORS = {'*': {**{f'{k}:{s}': 5 for k in ('oas31', 'oas30') for s in STACKS},
                 **{f'openrpc:{s}': 5 for s in ('default', 'pydantic', 'docstring')},
                 'shared-errors-list': 10, 'prefix-on-first-only': 5, 'prefix-on-later-only': 5, 'worker:oas31': 20, 'worker:oas30': 20,
                 'worker:openrpc': 20, 'isolation-comparisons': 100, 'repeat-generations': 100, 'view-method': 10,
-                'status-map-errors': 10, 'fingerprints-compared': 100, 'reused-spec-comparisons': 50, 'bystander-specs': 50, 'same-name-on-two-endpoints': 10, 'names-differing-only-in-separators': 5, 'pydantic-extractor-with-model-config': 20, 'methods-are-partial-objects': 10}}
+                'status-map-errors': 10, 'fingerprints-compared': 100, 'reused-spec-comparisons': 50, 'bystander-specs': 50, 'same-name-on-two-endpoints': 10, 'names-differing-only-in-separators': 5, 'pydantic-extractor-with-model-config': 20, 'root-path-with-a-trailing-slash': 50, 'one-annotate-decorator-object-on-several-methods': 10, 'methods-are-partial-objects': 10}}
 
 PENDING = []          # documents for the meta-schema worker: (key, kind, doc, case)
 
@@ -121,8 +121,15 @@ def generate(kind, stack, method_specs, prefixes, shared, status_map, order=None
     return spec, methods, funcs, mm
 
 
-def run_case(ctx, kind, stack, methods, prefixes, status_map, repeats):
-    cls = (kind, stack, json.dumps(methods, sort_keys=True), tuple(prefixes), status_map)
+def endpoint_path(root, prefix):
+    """where an endpoint lives: the root path as given, or root and prefix joined by exactly one slash"""
+    return root if not prefix else root.rstrip('/') + '/' + prefix.lstrip('/')
+
+
+def run_case(ctx, kind, stack, methods, prefixes, status_map, repeats, root='/api'):
+    cls = (kind, stack, json.dumps(methods, sort_keys=True), tuple(prefixes), status_map, root)
+    if root != '/api':
+        ctx.hit('root-path-with-a-trailing-slash')
     fam = f'{kind}:{stack}'
     ctx.hit(fam)
     wit = dict(kind=kind, extractors=stack, methods=methods, endpoint_prefixes=prefixes, status_map=status_map)
@@ -137,6 +144,8 @@ def run_case(ctx, kind, stack, methods, prefixes, status_map, repeats):
         ctx.hit('pydantic-extractor-with-model-config')
     if any(m.get('partial') for m in methods):
         ctx.hit('methods-are-partial-objects')
+    if sum(1 for a in anns if a.get('shared_deco')) >= 2:
+        ctx.hit('one-annotate-decorator-object-on-several-methods')
     if sum(1 for a in anns if a.get('errors') == 'shared') >= 2:
         ctx.hit('shared-errors-list')
     if len(methods) > 1 and anns[0].get('prefix') and not any(a.get('prefix') for a in anns[1:]):
@@ -172,7 +181,7 @@ def run_case(ctx, kind, stack, methods, prefixes, status_map, repeats):
                 ctx.violation(f'schema-raises:{type(e).__name__}:{kind}:bystander', fam, cls, exception=e, **wit)
                 return
         try:
-            d = spec.schema(path='/api', methods_map=mm)
+            d = spec.schema(path=root, methods_map=mm)
         except Exception as e:
             ctx.violation(f'schema-raises:{type(e).__name__}:{kind}:{"default-or-docstring" if stack in ("default", "docstring") else stack}'
                           + (f':generation{r + 1}' if r else ''), fam, cls, exception=e, generation=r + 1, **wit)
@@ -213,7 +222,7 @@ def run_case(ctx, kind, stack, methods, prefixes, status_map, repeats):
             ctx.violation('openrpc-methods-not-exactly-the-registered-ones', fam, cls, expected=want, got=got, **wit)
             return
     else:
-        want = [f"{utils.join_path('/api', p)}#{m['name']}" for m, p in zip(methods, prefixes)]
+        want = [f"{endpoint_path(root, p)}#{m['name']}" for m, p in zip(methods, prefixes)]
         got = list(doc.get('paths', {}))
         if sorted(want) != sorted(got):
             ctx.violation('openapi-paths-not-exactly-the-registered-methods', fam, cls, expected=want, got=got, **wit)
@@ -225,7 +234,7 @@ def run_case(ctx, kind, stack, methods, prefixes, status_map, repeats):
             sh2 = {'errors_list': [specworld.SpecErrA, specworld.SpecErrB]}
             try:
                 spec2, _, _, mm2 = generate(kind, stack, methods, prefixes, sh2, status_map, order)
-                d2 = json.loads(json.dumps(spec2.schema(path='/api', methods_map=mm2), cls=specs.JSONEncoder))
+                d2 = json.loads(json.dumps(spec2.schema(path=root, methods_map=mm2), cls=specs.JSONEncoder))
             except Exception as e:
                 ctx.violation(f'schema-raises:{type(e).__name__}:{kind}:{label.split(":")[0]}', fam, cls, exception=e, variant=label, **wit)
                 return
@@ -258,10 +267,10 @@ def run_case(ctx, kind, stack, methods, prefixes, status_map, repeats):
             mm3 = {}
             for mo, p_ in zip(vm, prefixes):
                 mm3.setdefault(p_, []).append(mo)
-            reused = json.loads(json.dumps(spec.schema(path='/api', methods_map=mm3), cls=specs.JSONEncoder))
+            reused = json.loads(json.dumps(spec.schema(path=root, methods_map=mm3), cls=specs.JSONEncoder))
             sh4 = {'errors_list': [specworld.SpecErrA, specworld.SpecErrB]}
             spec4, _, _, mm4 = generate(kind, stack, variant, prefixes, sh4, status_map)
-            fresh = json.loads(json.dumps(spec4.schema(path='/api', methods_map=mm4), cls=specs.JSONEncoder))
+            fresh = json.loads(json.dumps(spec4.schema(path=root, methods_map=mm4), cls=specs.JSONEncoder))
         except Exception as e:
             ctx.violation(f'schema-raises:{type(e).__name__}:{kind}:second-registry', fam, cls, exception=e, **wit)
             return
@@ -445,6 +454,8 @@ def random_method(rng, idx, allow_view=True):
             a['result_schema'] = True
         if rng.random() < 0.3:
             a['prefix'] = rng.choice(['Px', 'Users_'])
+        if rng.random() < 0.2:
+            a['shared_deco'] = True
         m['annotate'] = a
     if allow_view and rng.random() < 0.15:
         m['view'] = True
@@ -487,7 +498,7 @@ def gen(ctx):
             stacks = STACKS if kind != 'openrpc' else ['default', 'pydantic', 'docstring']
             stack = stacks[k % len(stacks)] if not full else rng.choice(stacks)
             yield 'case', dict(kind=kind, stack=stack, methods=methods, prefixes=prefixes, status_map=bool(k % 3 == 0),
-                               repeats=1 + k % 3)
+                               repeats=1 + k % 3, **({'root': ('/', '/api/v1/')[(k // 4) % 2]} if k % 4 == 0 else {}))
     # crafted: shared errors list, prefix on first / later only, docstring raises next to annotated errors
     base = lambda name, **kw: dict({'name': name, 'params': [['a', 'PK', 'int', False]], 'ret': 'Thing', 'ctx': None}, **kw)
     crafted = [
@@ -513,6 +524,9 @@ def gen(ctx):
         [base('m0', partial=True, annotate={'summary': 's-m0', 'tags': ['t0'], 'errors': ['A'], 'examples': 1}),
          base('m1', partial=True, annotate={'summary': 's-m1', 'tags': ['t1'], 'errors': ['B']}), base('m2', partial=True)],
         [base('m0', partial=True), base('m1', partial=True, annotate={'description': 'only m1', 'deprecated': True, 'errors': ['C']})],
+        [base('m0', annotate={'shared_deco': True, 'summary': 'own-m0', 'deprecated': True, 'examples': 1}), base('m1', annotate={'shared_deco': True}),
+         base('m2', annotate={'shared_deco': True})],
+        [base('m0', annotate={'shared_deco': True}), base('m1', annotate={'shared_deco': True, 'description': 'own-m1', 'errors': ['B']})],
         [base('m0', pd_config=True, annotate={'errors': ['A']}), base('m1', pd_config=True)],
         [base('m0', pd_config=True, doc={'raises': ['B'], 'params': True}), base('m1', pd_config=True, annotate={'errors': ['C']}), base('m2', pd_config=True)],
     ]
